@@ -111,7 +111,7 @@ where
 
 /// Inputs of an entry: `n_boundary` class combinations (rotating, seed independent) followed by
 /// `n_random` seeded ones, then the entry's specials.
-pub fn gen_inputs<K: Emu>(e: &FEntry<K>, idx: usize, n_boundary: usize, n_random: usize, rng: &mut ChaCha8Rng) -> Vec<FIn>
+pub fn gen_inputs<K: Emu>(e: &FEntry<K>, idx: usize, n_boundary: usize, n_random: usize, max_specials: usize, rng: &mut ChaCha8Rng) -> Vec<FIn>
 where
     MEP: FieldEmulationParams<F, K>,
 {
@@ -140,7 +140,7 @@ where
             bytes: (0..e.nbytes).map(|_| rng.gen()).collect(),
         });
     }
-    out.extend(e.specials.iter().cloned());
+    out.extend(e.specials.iter().take(max_specials).cloned());
     out
 }
 
@@ -177,7 +177,7 @@ where
     // quick-tier rotation of non-core entries
     let mut q = |core: bool| -> bool {
         rot += 1;
-        core || rot % 3 == fidx % 3
+        core || rot % 9 == (fidx * 3 + 1) % 9
     };
     let fe1 = |x: &BigUint| FIn::fe(vec![x.clone()]);
     let fe2 = |x: &BigUint, y: &BigUint| FIn::fe(vec![x.clone(), y.clone()]);
@@ -423,7 +423,13 @@ where
         }
         v.push(e);
     }
+    // (fields whose bit length is not a multiple of 8: see probe P1 in c05.rs; any byte length that
+    // covers the whole field panics there, so only short lengths are catalogued for them)
+    let bytes_ok = nbits % 8 == 0;
     for (tag, nb, be, core) in [("le,None", None, false, true), ("be,None", None, true, false), ("le,Some(bytes-1)", Some(nbytes - 1), false, false), ("be,Some(1)", Some(1usize), true, false)] {
+        if !bytes_ok && nb.is_none() {
+            continue;
+        }
         let mut p = PB::new();
         let a = p.p(Ins::In(0));
         let z = p.p(if be { Ins::ToBeBytes(a, nb) } else { Ins::ToLeBytes(a, nb) });
@@ -526,8 +532,13 @@ where
         p.out(e1);
         p.p(Ins::AssertEq(x, a));
         p.out(x);
-        let by = p.p(Ins::ToLeBytes(x, None));
-        p.out(by);
+        if bytes_ok {
+            let by = p.p(Ins::ToLeBytes(x, None));
+            p.out(by);
+        } else {
+            let bi = p.p(Ins::ToLeBits(x, None, true));
+            p.out(bi);
+        }
         let s0 = p.p(Ins::Sgn0(x));
         p.out(s0);
         v.push(entry("chain[a+(m-1)+1: is_equal, assert_equal, expose, bytes, sgn0]", p, 1, q(true)));
@@ -556,8 +567,10 @@ where
         let t = p.p(Ins::Sub(na, c));
         let x = p.p(Ins::Sub(t, d));
         p.out(x);
-        let by = p.p(Ins::ToBeBytes(x, None));
-        p.out(by);
+        if bytes_ok {
+            let by = p.p(Ins::ToBeBytes(x, None));
+            p.out(by);
+        }
         let s0 = p.p(Ins::Sgn0(x));
         p.out(s0);
         let z = p.p(Ins::IsZero(x));
@@ -595,8 +608,10 @@ where
         p.out(x);
         let e1 = p.p(Ins::IsEq(x, s));
         p.out(e1);
-        let by = p.p(Ins::ToLeBytes(x, None));
-        p.out(by);
+        if bytes_ok {
+            let by = p.p(Ins::ToLeBytes(x, None));
+            p.out(by);
+        }
         let mut e = entry("chain[select(bit, a+b, -b): expose, is_equal, bytes]", p, 2, q(false));
         e.nbits = 1;
         v.push(e);
@@ -625,8 +640,10 @@ where
         let s = p.p(Ins::Add(a, c));
         let bits = p.p(Ins::ToLeBits(s, None, true));
         p.out(bits);
-        let by = p.p(Ins::ToLeBytes(s, None));
-        p.out(by);
+        if bytes_ok {
+            let by = p.p(Ins::ToLeBytes(s, None));
+            p.out(by);
+        }
         let s0 = p.p(Ins::Sgn0(s));
         p.out(s0);
         let e1 = p.p(Ins::IsEqC(s, b(5)));
@@ -736,7 +753,7 @@ where
             p.out(e1);
             p.out(x);
             match ci % 3 {
-                0 => {
+                0 if bytes_ok => {
                     let by = p.p(Ins::ToLeBytes(x, None));
                     p.out(by);
                 }
